@@ -7,7 +7,9 @@ import (
 	"math/rand"
 	"sort"
 	"strings"
+	"sync"
 	"testing"
+	"testing/synctest"
 	"time"
 
 	"github.com/prometheus/client_golang/prometheus"
@@ -224,4 +226,59 @@ func TestFullStateExchange(t *testing.T) {
 			sub.Count("cases_unknown_part_before_log", 1)
 		}
 	})
+}
+
+// TestLogRacesGC: "entries are kept until their expiry and dropped by garbage collection afterwards" -
+// a garbage collection that runs while an expired entry of the same key is being replaced by a fresh
+// one must not take the fresh one with it. Virtual time makes the entry expire exactly; the collection
+// and the Log call then run concurrently at one instant on two goroutines (a large log stretches the
+// collection); whichever wins, the fresh entry must be there afterwards.
+func TestLogRacesGC(t *testing.T) {
+	run := vf.Cur()
+	sub := run.Sub("log-races-gc", "real notification log in a virtual-time bubble holding 150000 long-lived entries and one key K whose entry expires after a minute; 8 rounds: wait until K's entry has expired, then run GC() and Log(K) (fresh entry, one more minute) concurrently at the same instant; afterwards Query(K) must return the fresh entry; non-trivial = every case; distinct by (case)", 1)
+	n := run.N(2, 40)
+	for i := 0; i < n; i++ {
+		synctest.Test(t, func(t *testing.T) {
+			l, _, err := newLog(nil)
+			if err != nil {
+				t.Fatal(err)
+			}
+			rc := receivers[0]
+			fillers := 150000
+			if vf.RaceEnabled {
+				fillers = 15000
+			}
+			for k := 0; k < fillers; k++ {
+				if err := l.Log(rc, fmt.Sprintf("{}:{filler=\"%d\"}", k), []uint64{uint64(k)}, nil, nil, 0); err != nil {
+					t.Fatal(err)
+				}
+			}
+			const K = "{}:{alertname=\"K\"}"
+			if err := l.Log(rc, K, []uint64{1}, nil, nil, time.Minute); err != nil {
+				t.Fatal(err)
+			}
+			for round := 0; round < 8; round++ {
+				time.Sleep(time.Minute + time.Second) // K's entry has expired; nothing has collected it yet
+				var wg sync.WaitGroup
+				wg.Add(2)
+				go func() { defer wg.Done(); l.GC() }()
+				go func() {
+					defer wg.Done()
+					l.Log(rc, K, []uint64{uint64(100 + round)}, nil, nil, time.Minute)
+				}()
+				wg.Wait()
+				sub.Count("rounds", 1)
+				es, err := l.Query(nflog.QGroupKey(K), nflog.QReceiver(rc))
+				if err != nil || len(es) != 1 || len(es[0].FiringAlerts) != 1 || es[0].FiringAlerts[0] != uint64(100+round) {
+					got := "not found"
+					if len(es) == 1 {
+						got = fmt.Sprint(es[0].FiringAlerts)
+					}
+					sub.Violation("fresh-entry-lost-to-a-concurrent-garbage-collection", map[string]any{"round": round, "query_returned": got, "expected_firing": 100 + round, "log_size": 150001})
+					return
+				}
+			}
+		})
+		sub.Case(vf.Digest(i), true)
+	}
 }
